@@ -427,9 +427,9 @@ def check(ctx):
            "load_transform validates with is_sim3 (kind: SE(3) or Sim(3))",
            key="C15.5:kind-source", nontrivial=False)
 
-    _merge_step(ctx)
-    _step_semantics(ctx)
-    _subjects(ctx, f, res, step_events, ref_traj)
+    ctx.section(_merge_step, ctx)
+    ctx.section(_step_semantics, ctx)
+    ctx.section(_subjects, ctx, f, res, step_events, ref_traj)
 
     # --------------------------------------------------------------- C15.6
     proc_last = max(e.idx for n in OPTION_OF for e in step_events[n])
